@@ -15,6 +15,7 @@ from common import ROOT, Outcome  # noqa: E402
 
 ENGINES = {
     "C09": ("eng_stack", "proof"),
+    "C14": ("eng_text", "proof"),
 }
 
 
